@@ -197,6 +197,9 @@ pub enum AStep {
     Sleep { ns: u64 },
     #[serde(rename = "unblock")]
     Unblock,
+    /// D1 only: every condvar wait in progress returns spuriously
+    #[serde(rename = "spurious")]
+    Spurious,
     #[serde(rename = "phase")]
     Phase { k: u64 },
 }
